@@ -7,8 +7,12 @@
 //     N      number of samples (end - begin)
 //     mask   bit0 real kernel callback, bit1 real distance callback, bit2 real features callback
 //            (a missing callback is tapkee's dummy_*_callback: all 8 instantiations are compiled)
-//     stopf  1: also stop at the first features vector() call (feature-only methods; keeps the
-//            algorithm itself from running)
+//     stopf  bit0: also stop at the first features vector() call (feature-only methods; keeps the
+//            algorithm itself from running);  bit1 (wave 3): the call is made from INSIDE an application's own
+//            `#pragma omp parallel num_threads(3)` region, by every thread at once, each with its own try/catch; the
+//            outcome must be what the plain serial call gives (reported: the common outcome, or
+//            other:threads-disagree:<a>/<b>/<c>; the counters fd cn pg and the echo are those of thread 0);
+//            bit2: the same with nested parallelism switched on
 //     kwid   keyword numbering of translate/t_val.py (0..21); >= 100: a name tapkee does not know
 //     T val  I <int> | S <hexfloat> | B 0/1 | M <method id> | N <neighbors id> | E <eigen id> |
 //            C <strategy id> | P 0/1 (progress fn NULL / real) | X 0/1/2 (cancel NULL / returns false /
@@ -51,6 +55,7 @@
 #include <type_traits>
 #include <vector>
 #include <signal.h>
+#include <omp.h>
 #include <sys/wait.h>
 #include <unistd.h>
 
@@ -67,6 +72,9 @@ static int g_idx = 0;
 static int g_stopf = 0;
 static long n_kernel = 0, n_distance = 0, n_fvec = 0, n_fdim = 0, n_cancel = 0, n_progress = 0;
 static std::string g_echo;
+static int g_omp_mode = 0;
+// in the parallel-region mode only the calls made by thread 0 of the application's region are counted / echoed
+static inline bool observed_thread() { return !g_omp_mode || omp_get_ancestor_thread_num(1) == 0; }
 
 static void emit_and_exit(const std::string& outcome)
 {
@@ -118,7 +126,7 @@ struct counting_features
 {
     IndexType dimension() const
     {
-        n_fdim++;
+        if (observed_thread()) n_fdim++;
         return FEATURE_DIM;
     }
     void vector(const int& a, DenseVector& v) const
@@ -137,9 +145,9 @@ typedef dummy_kernel_callback<int> no_kernel;
 typedef dummy_distance_callback<int> no_distance;
 typedef dummy_features_callback<int> no_features;
 
-static bool cancel_false() { n_cancel++; return false; }
-static bool cancel_true() { n_cancel++; return true; }
-static void progress_fn(double) { n_progress++; }
+static bool cancel_false() { if (observed_thread()) n_cancel++; return false; }
+static bool cancel_true() { if (observed_thread()) n_cancel++; return true; }
+static void progress_fn(double) { if (observed_thread()) n_progress++; }
 
 // ------------------------------------------------------------------ logger capturing the debug echo
 struct capture_logger : public LoggerImplementation
@@ -151,6 +159,7 @@ struct capture_logger : public LoggerImplementation
     virtual void message_debug(const std::string& msg)
     {
         static const std::string pre = "Parameter ";
+        if (!observed_thread()) return;
         if (msg.compare(0, pre.size(), pre) == 0)
         {
             size_t eq = msg.find(" = [");
@@ -485,7 +494,7 @@ static void probe_main(std::istringstream& in)
 }
 
 // ------------------------------------------------------------------ one request (in the child)
-template <class K, class D, class F> static void run_embed(const std::vector<int>& idx, const ParametersSet& ps)
+template <class K, class D, class F> static std::string embed_outcome(const std::vector<int>& idx, const ParametersSet& ps)
 {
     std::string outcome;
     try
@@ -504,6 +513,25 @@ template <class K, class D, class F> static void run_embed(const std::vector<int
     catch (const not_enough_memory_error&) { outcome = "not_enough_memory"; }
     catch (const std::exception& ex) { outcome = std::string("other:") + typeid(ex).name(); }
     catch (...) { outcome = "other:unknown"; }
+    return outcome;
+}
+
+template <class K, class D, class F> static void run_embed(const std::vector<int>& idx, const ParametersSet& ps)
+{
+    if (!g_omp_mode) emit_and_exit(embed_outcome<K, D, F>(idx, ps));
+    // the application's own parallel region: every thread calls tapkee::embed, exceptions stay inside their thread
+    std::string res[3];
+    omp_set_dynamic(0);
+    omp_set_max_active_levels((g_omp_mode & 2) ? 4 : 1);
+#pragma omp parallel num_threads(3)
+    {
+        const int t = omp_get_thread_num();
+        if (t >= 0 && t < 3) res[t] = embed_outcome<K, D, F>(idx, ps);
+    }
+    std::string outcome = res[0];
+    // a team of fewer than three threads (OMP_THREAD_LIMIT) leaves the other slots empty: they do not vote
+    for (int t = 1; t < 3; t++)
+        if (!res[t].empty() && res[t] != res[0]) outcome = "other:threads-disagree:" + res[0] + "/" + res[1] + "/" + res[2];
     emit_and_exit(outcome);
 }
 
@@ -524,7 +552,8 @@ static void child_main(const std::string& line)
     }
     if (!(in >> tag >> N >> mask >> stopf >> nkw) || tag != "R" || N < 0 || N > 4096 || nkw < 0)
         emit_and_exit("other:bad-request-line");
-    g_stopf = stopf;
+    g_stopf = stopf & 1;
+    g_omp_mode = (stopf >> 1) & 3;
     std::vector<Parameter> ps_list;
     for (int i = 0; i < nkw; i++)
     {
